@@ -1,7 +1,7 @@
 (** C11 - Stream combinators and generators satisfy their defining equations.
     Model: Core/Natives.v (mirrors the native limit/skip/first/last of jaq-core/src/funs.rs). *)
 From Coq Require Import ZArith Bool List.
-From JaqV Require Import Base.Bytes Base.Stream Val.Num Val.Val Core.Syntax Core.Natives Core.Run Proofs.StreamLaws Proofs.FoldLaws.
+From JaqV Require Import Base.Bytes Base.Stream Val.Num Val.Val Core.Syntax Core.Natives Core.Run Proofs.StreamLaws Proofs.FoldLaws Proofs.LastLaws.
 From JaqV Require Proofs.CompileCorrect.
 Local Open Scope Z_scope.
 
@@ -70,3 +70,25 @@ Theorem range_is_the_progression : forall n a b c fuel, 0 < c ->
   range fuel (vint a) (vint b) (vint c) = of_list (map (fun i => vint (a + Z.of_nat i * c)) (seq 0 n)).
 Proof. exact FoldLaws.range_up. Qed.
 Print Assumptions range_is_the_progression.
+
+(** `last(f)`: decided by how the stream ends - the last output of a stream that ends normally, nothing for an empty one,
+    and the first error, break or halt inside the stream ends it (what came before is not delivered): exactly
+    `[f] | if length == 0 then empty else .[-1] end` *)
+Theorem last_is_the_last_of_the_collected_stream : forall A (s : str A),
+  last_s s = collect_then s (fun ys => match rev ys with y :: _ => sone y | nil => SNil end).
+Proof. exact @LastLaws.last_is_collect_then_last. Qed.
+Print Assumptions last_is_the_last_of_the_collected_stream.
+
+Theorem last_stops_at_the_first_error : forall A (ys : list A) e (rest : unit -> str A),
+  last_s (sapp (of_list ys) (fun _ => sapp (SExn e) rest)) = SExn e.
+Proof. exact @LastLaws.last_stops_at_the_first_error. Qed.
+Print Assumptions last_stops_at_the_first_error.
+
+(** `nth(n; f)` = `first(skip(n; f))` (its definition in defs.jq): the n-th output counted from 0, nothing when the stream has
+    no more than n outputs, the first output for n <= 0 *)
+Theorem nth_is_first_of_skip : forall A (ys : list A) k, in_isize k = true ->
+  first_s (skip (vint k) (of_list ys))
+  = if k <=? 0 then first_s (of_list ys)
+    else match nth_error ys (Z.to_nat k) with Some y => sone y | None => SNil end.
+Proof. exact @LastLaws.nth_def. Qed.
+Print Assumptions nth_is_first_of_skip.
